@@ -174,8 +174,20 @@ func runC14(c *Ctx) {
 			d0 := desc[r.Intn(n)].(map[string]interface{})
 			d0["outs"] = append(gList(d0, "outs"), map[string]interface{}{"kind": "emptyscript", "item": 0, "item2": 0})
 		}
+		if k%4 == 1 { // spent outpoints with large output indexes (every byte of the index matters)
+			d0 := desc[n-1].(map[string]interface{})
+			for _, idx := range []int64{65535, 65536, 0x01000000, 0x01020304, 0x00010001, math.MaxUint32} {
+				d0["ins"] = append(gList(d0, "ins"), map[string]interface{}{"parent": -1, "out": idx, "sig": -1, "ext": r.Intn(200)})
+			}
+		}
 		c.Call(Event{"op": "GcsBuilder", "desc": desc, "salt": int(r.Int31n(60000)), "mempool": k%5 == 4})
 	}
+	// empty filters: nothing but a coinbase with empty scripts, an empty mempool
+	emptyTx := map[string]interface{}{"outs": []interface{}{map[string]interface{}{"kind": "emptyscript", "item": 0, "item2": 0}},
+		"ins": []interface{}{map[string]interface{}{"parent": -1, "out": 0, "sig": -1, "ext": 1}}}
+	c.Call(Event{"op": "GcsBuilder", "desc": []interface{}{emptyTx}, "salt": 4711, "mempool": false})
+	c.Call(Event{"op": "GcsBuilder", "desc": []interface{}{}, "salt": 4712, "mempool": true})
+	c.Call(Event{"op": "GcsBuilder", "desc": []interface{}{}, "salt": 4713, "mempool": false})
 	// builder histories: error latch and de-duplication
 	for k := 0; k < c.Pick(150, 2000); k++ {
 		var prog []interface{}
